@@ -9,6 +9,8 @@ payload (see harness/hrelay/src/bin/c09.rs):
   `R <cfg> <op>;…`                    ops `a <ms>` | `d <n>` (n more bytes ready) | `e` (then EOF) | `x <code>` (then error) | `s <cfg>` (live reconfig)
                                           | `w <ms> <buf>` (`timeout(ms, read(buf))`)
   cfg = `none` | `<bps>,<burst>` | `<bps>,-`
+  `S <n|t|l|i> <op>;…`               real `Server`: ops `s <n|t|l|i>` set_client_rate_limit | `c <k>` connect client k
+                                          | `x <k>` disconnect | `p <k>` probe which limit governs client k
 -/
 
 def nat? (s : String) : Option Nat :=
@@ -112,6 +114,46 @@ def runR (r : RLC) (now pos : Nat) : List String → List String → Option (Lis
         runR r' now' pos rest (txt :: acc)
     | _ => none
 
+/-- Limits the `S` cases use: `n` none, `t` tight, `l` loose, `i` invalid (< 1 token per period). -/
+def svcCfg? (s : String) : Option (Option Cfg) :=
+  match s with
+  | "n" => some none
+  | "t" => some (some ⟨1000000, some 1000⟩)
+  | "l" => some (some ⟨3000000, some 60000⟩)
+  | "i" => some (some ⟨5, none⟩)
+  | _ => none
+
+def connected (s : Service) (k : Nat) : Bool := s.conns.any fun c => c.1 == k
+
+def runS (s : Service) : List String → List String → Option (List String)
+  | [], acc => some acc.reverse
+  | op :: rest, acc =>
+    match tokens op with
+    | ["s", c] => do
+      let c ← svcCfg? c
+      runS (s.set c) rest ("ok" :: acc)
+    | ["c", k] => do
+      let k ← natLe? k 3
+      if connected s k then runS s rest ("noop" :: acc) else
+      match s.connect k 0 with
+      | none => runS s rest ("refused" :: acc)
+      | some s' => runS s' rest ("ok" :: acc)
+    | ["x", k] => do
+      let k ← natLe? k 3
+      if connected s k then runS (s.disconnect k) rest ("ok" :: acc) else runS s rest ("noop" :: acc)
+    | ["p", k] => do
+      let k ← natLe? k 3
+      match s.limitOf k 0 with
+      | none => runS s rest ("noconn" :: acc)
+      | some bk =>
+        let cls := match bk with
+          | none => "none"
+          | some b => if b.max = 1000 then "tight" else if b.max = 60000 then "loose" else "other"
+        -- the probe makes the limiter poll: a pending update is picked up
+        let s' : Service := ⟨s.stored, s.conns.map fun c => if c.1 == k then (c.1, c.2.applyCfg 0) else c⟩
+        runS s' rest (cls :: acc)
+    | _ => none
+
 /-- Both sides validate the whole op list before running anything. -/
 def validOps (kind : String) (ops : List String) : Bool :=
   ops.all fun op =>
@@ -120,6 +162,10 @@ def validOps (kind : String) (ops : List String) : Bool :=
     | "B", ["c", n] => (natLe? n u64Max).isSome
     | "B", ["r", n] => (natLe? n u64Max).isSome
     | "R", ["d", n] => (natLe? n maxAvail).isSome
+    | "S", ["s", c] => (svcCfg? c).isSome
+    | "S", ["c", k] => (natLe? k 3).isSome
+    | "S", ["x", k] => (natLe? k 3).isSome
+    | "S", ["p", k] => (natLe? k 3).isSome
     | "R", ["e"] => true
     | "R", ["x", c] => (natLe? c 3).isSome
     | "R", ["s", c] => (cfg? c).isSome
@@ -152,6 +198,15 @@ def handleLine (payload : String) : String :=
         match runR ⟨r, ⟨[], .open⟩⟩ 0 0 ops [] with
         | none => "bad-input"
         | some outs => " ".intercalate ("new:ok" :: outs)
+  | "S" :: c :: rest =>
+    match svcCfg? c with
+    | none => "bad-input"
+    | some c =>
+      let ops := (" ".intercalate rest).splitOn ";"
+      if rest.isEmpty || !validOps "S" ops then "bad-input" else
+      match runS (Service.new c) ops [] with
+      | none => "bad-input"
+      | some outs => " ".intercalate outs
   | _ => "bad-input"
 
 def main : IO Unit := Driver.run handleLine
